@@ -18,6 +18,7 @@ type SV struct {
 	Ty types.Type // Go type when known (needed for field access, len, views)
 	P  *Place     // set when the value is an addressable place holding a struct (auto-deref)
 	Untyped bool  // integer literal not yet coerced
+	Emb     bool  // derived reference standing for an embedded struct value (v.Range): not comparable as a value
 }
 
 type SpecEnv struct {
@@ -423,6 +424,9 @@ func (env *SpecEnv) evalBinary(e *Expr) *SV {
 		}
 		return &SV{T: EDiv(a.T, p), Ty: a.Ty}
 	}
+	if (op == "==" || op == "!=") && a.Emb && b.Emb {
+		stale("comparison of a struct stored inside a heap object in %s: compare its fields (the comparison would only compare identities)", e)
+	}
 	a, b = env.unify(a, b, e)
 	ty := firstTy(a, b)
 	unt := a.Untyped && b.Untyped
@@ -541,7 +545,7 @@ func (env *SpecEnv) field(a *SV, name string, e *Expr) *SV {
 		// heap read
 		if _, isStruct := ft.Underlying().(*types.Struct); isStruct {
 			// embedded struct object: derived reference
-			return &SV{T: x.embRef(bt, name, a.T), Ty: types.NewPointer(ft)}
+			return &SV{T: x.embRef(bt, name, a.T), Ty: types.NewPointer(ft), Emb: true}
 		}
 		p := x.fieldPlace(bt, idx, a.T)
 		return &SV{T: x.readPlace(env.heap, p), Ty: ft}
@@ -747,6 +751,23 @@ func (env *SpecEnv) call(e *Expr) *SV {
 		argN(1)
 		a := env.eval(e.Args[0])
 		return &SV{T: x.validOf(env, a, e)}
+	case "present":
+		// present(m, k): key k is in map m (maps with basic-typed keys)
+		argN(2)
+		a := env.eval(e.Args[0])
+		if a.Ty == nil || a.T == nil {
+			stale("present: not a map in %s", e)
+		}
+		vc, pc, ks, vs, ok := x.mapComps(a.Ty)
+		if !ok {
+			stale("present: unsupported map type %s in %s", a.Ty, e)
+		}
+		k := env.eval(e.Args[1])
+		if k.T == nil || k.T.S != ks {
+			stale("present: key sort in %s", e)
+		}
+		_, pr := x.mapLookup(env.heap, vc, pc, ks, vs, a.T, k.T, a.Ty.Underlying().(*types.Map).Elem())
+		return &SV{T: pr}
 	case "unbox":
 		// unbox(x, T): the value of Go type T (a type of the current package, or int/int64/bool) held by interface value x
 		argN(2)
